@@ -41,7 +41,9 @@ func encodeToString(candidate *CandidateNode, prefs encoderPreferences) (string,
 	}
 
 	printer := NewPrinter(encoder, NewSinglePrinterWriter(bufio.NewWriter(&output)))
-	err := printer.PrintResults(candidate.AsList())
+	// print a copy: for formats that cannot represent aliases the printer explodes
+	// them in place, which must not reach the node being read
+	err := printer.PrintResults(candidate.Copy().AsList())
 	return output.String(), err
 }
 
